@@ -88,6 +88,14 @@ def gen_module(seed):
             k = inner.add_op(O.Noop(), ci[1])          # non-local edge (+ order edge added by the builder)
             inner.set_outputs(inner.input_node[0], k)
         outs += [inner[0], inner[1]]
+    if rnd.random() < 0.6:
+        # siblings *after* the nested container, joined by a state-order edge (and one from the container itself)
+        n1 = main.add_op(O.Noop(), b)
+        n2 = main.add_op(O.Noop(), n1[0])
+        main.add_state_order(n1, n2)
+        if kind != "none" and rnd.random() < 0.5:
+            main.add_state_order(outs[-1] if kind != "nested" else inner, n2)
+        outs.append(n2[0])
     main.set_outputs(*outs)
     return mod.hugr
 
